@@ -90,6 +90,11 @@ AttrChoicesR  == {<<>>, Attr("key1", "x"), Attr("key1", "y"), Attr("key1", "x") 
 GroupChoicesRX == {<<[price |-> 2, req |-> Attr("key1", "x"), allOf |-> {}, anyOf |-> {}]>>,
                    <<[price |-> 2, req |-> Attr("key2", "x"), allOf |-> {}, anyOf |-> {}]>>,
                    <<[price |-> 2, req |-> Attr("key3", ""), allOf |-> {}, anyOf |-> {}]>>}   \* a flag attribute: empty value
+\* exhaustive family for the auditor lists (C08 all-of / any-of): one requirement, every (all-of, any-of) shape
+GroupChoicesRA == {<<[price |-> 2, req |-> Attr("key1", "x"), allOf |-> sg[1], anyOf |-> sg[2]]>> :
+                      sg \in {<<{"a1"}, {}>>, <<{}, {"a1", "a2"}>>, <<{"a1"}, {"a2"}>>, <<{"a1", "a2"}, {}>>}}
+AttrChoicesRA  == {Attr("key1", "x"), Attr("key2", "x")}
+KeyChoicesRA   == {{}}
 AttrChoicesRX  == {Attr("key1", "x") @@ Attr("key2", "x"), Attr("key1", "x"), Attr("key2", "x")}
 KeyChoicesR   == {{}, {"key1"}, {"key1", "key2"}, {"key3", "key4"}}
 
